@@ -282,6 +282,23 @@ impl C20 {
                 if removed > 0 {
                     h.out.count("listings_after_removals");
                 }
+                // some grants are used up completely by their spender: they stay current items with amount 0
+                for (i, x) in pick.iter().enumerate() {
+                    if i % 11 == 4 {
+                        let (o, sp) = if by_owner { (hub.clone(), x.clone()) } else { (x.clone(), hub.clone()) };
+                        let amt = 10 + i as u128;
+                        let r = c.exec(&sp, &t, &cw20::Cw20ExecuteMsg::TransferFrom { owner: o.clone(), recipient: sp.clone(), amount: Uint128::new(amt) }, &[]);
+                        if r.is_ok() {
+                            for e in expected.iter_mut() {
+                                if e.0 == *x {
+                                    let tail = e.1.split_once('/').map(|p| p.1.to_string()).unwrap_or_default();
+                                    e.1 = format!("0/{tail}");
+                                }
+                            }
+                            h.out.count("allowances_used_up_completely_still_listed");
+                        }
+                    }
+                }
                 if h.idx % 3 == 2 {
                     // the token was deployed by a pre-0.14 release: no by-spender index exists; the real
                     // migrate has to build it (old version strings with one- and two-digit minors)
@@ -407,6 +424,12 @@ impl C20 {
                     let mut removed = 0;
                     for (i, x) in pick.iter().enumerate() {
                         if i % 5 == 1 {
+                            if i % 2 == 1 {
+                                // a grant of nothing in a second denomination leaves a zero coin behind; once the real
+                                // grant is revoked nothing is left, and nothing may be listed
+                                let _ = c.exec(&admin, &sk, &cw1_subkeys::msg::ExecuteMsg::<Empty>::IncreaseAllowance { spender: x.clone(), amount: coin(0, "ubtc"), expires: None }, &[]);
+                                h.out.count("revoked_subkey_grants_with_a_zero_coin_left");
+                            }
                             let r = c.exec(&admin, &sk, &cw1_subkeys::msg::ExecuteMsg::<Empty>::DecreaseAllowance { spender: x.clone(), amount: coin(1_000_000, "uatom"), expires: None }, &[]);
                             if r.is_ok() {
                                 expected.retain(|e| e.0 != *x);
